@@ -555,7 +555,10 @@ async fn run(opts: Opts) {
     }
     let calls = hist.lock().unwrap().clone();
     let log = sh.snapshot();
-    let expected: i64 = init + log.iter().filter(|e| e.applied).map(|e| e.arg).sum::<i64>();
+    // What the probe's read has to return: everything applied before its own execution began (a call
+    // that was held up behind a stalled link may still be executed afterwards).
+    let read_start = log.iter().find(|e| e.id == probe_id + 1).map(|e| e.start).unwrap_or(u64::MAX);
+    let expected: i64 = init + log.iter().filter(|e| e.applied && e.start < read_start).map(|e| e.arg).sum::<i64>();
     if !pdone.lock().unwrap()[0] {
         report(Some((
             "server-wedged",
